@@ -97,3 +97,45 @@ Proof.
   replace (Z.of_nat (8 - length fr)) with (Z.of_nat z2 + Z.of_nat (8 - (length fr + z2))) by lia.
   rewrite Z.pow_add_r by lia. lia.
 Qed.
+
+(* leading zeros of an Integer token do not matter either: "007" is 7, "-00" is 0 *)
+Theorem int_format_insensitive : forall (neg : bool) z1 ds, forallb is_digit ds = true -> ds <> [] ->
+  let s := if neg then [45] else [] in
+  int_of_bytes (s ++ repeat 48 z1 ++ ds) = int_of_bytes (s ++ ds).
+Proof.
+  intros neg z1 ds D NE s. subst s. destruct neg; cbn [app].
+  - unfold int_of_bytes. change (45 =? 45) with true. cbv iota. rewrite dval_zeros_app. reflexivity.
+  - assert (HD : forall l, forallb is_digit l = true -> l <> [] -> int_of_bytes l = dval l).
+    { intros l Dl NEl. destruct l as [|x t]; [congruence|]. unfold int_of_bytes.
+      cbn [forallb] in Dl. apply andb_true_iff in Dl as [D1 _]. destruct (digit_facts x D1) as (_ & N & _).
+      destruct (x =? 45) eqn:E; [lia|reflexivity]. }
+    rewrite (HD ds D NE). rewrite HD.
+    + apply dval_zeros_app.
+    + rewrite forallb_app, repeat48_digits, D. reflexivity.
+    + intro H. apply app_eq_nil in H. tauto.
+Qed.
+
+(* ====================================================================== a repeated key: OrderedDict semantics *)
+Fixpoint lookup (k : list Z) (d : kvs) : option tree :=
+  match d with [] => None | (k', v) :: r => if list_eqb k k' then Some v else lookup k r end.
+
+Lemma list_eqb_refl a : list_eqb a a = true.
+Proof. apply list_eqb_eq. reflexivity. Qed.
+
+Theorem set_kv_semantics : forall k v d,
+  lookup k (set_kv k v d) = Some v /\
+  (forall k', list_eqb k' k = false -> lookup k' (set_kv k v d) = lookup k' d) /\
+  (existsb (list_eqb k) (map fst d) = true -> map fst (set_kv k v d) = map fst d) /\
+  (existsb (list_eqb k) (map fst d) = false -> set_kv k v d = d ++ [(k, v)]).
+Proof.
+  intros k v d. repeat split.
+  - induction d as [|[k' v'] r IH]; cbn [set_kv lookup]; [rewrite list_eqb_refl; reflexivity|].
+    destruct (list_eqb k k') eqn:E; cbn [lookup]; rewrite E; [reflexivity|exact IH].
+  - intros k0 NE. induction d as [|[k' v'] r IH]; cbn [set_kv lookup]; [rewrite NE; reflexivity|].
+    destruct (list_eqb k k') eqn:E; cbn [lookup].
+    + apply list_eqb_eq in E. subst k'. rewrite NE. reflexivity.
+    + destruct (list_eqb k0 k'); [reflexivity|exact IH].
+  - intros H. induction d as [|[k' v'] r IH]; [discriminate|]. cbn [set_kv map fst existsb] in *.
+    destruct (list_eqb k k') eqn:E; [reflexivity|]. cbn [orb map fst] in *. rewrite (IH H). reflexivity.
+  - apply set_kv_fresh.
+Qed.
